@@ -776,6 +776,8 @@ def run(ctx):
     else:
         for sig, why, case in rejects[:3]:
             ctx.violation("unlisted:" + why.split()[0], why, case)
+    from . import _c15_ext
+    _c15_ext.run_ext(ctx, quick)     # extension H: qlfqueue with reclamation (LfqReclaim.v) + qdqueue micro-steps (DqMicro.v), M3
 
 
 def replay(ctx, path):
